@@ -100,6 +100,8 @@ func (it *Generator) Send(arg Object) (Object, error) {
 	res, err := VmRunFrame(it.Frame)
 	it.Running = false
 	if err != nil {
+		// A generator which raised is finished - don't resume it
+		it.Frame.Yielded = false
 		return nil, err
 	}
 	if it.Frame.Yielded {
